@@ -606,6 +606,8 @@ func runRec(c *Check, rule string, entries []*ssa.Function, only func(*ssa.Funct
 			if ok, why := autoGuard(comp, in, g, false); ok {
 				c.Okf(rule, key, pos, "recursive descent is guarded: %s", why)
 				continue
+			} else if os.Getenv("VERIF_DEBUG_REC") != "" {
+				fmt.Fprintf(os.Stderr, "REC-DEBUG autoGuard(%s): %s\n", key, why)
 			}
 			if r := whereRow(); r != nil {
 				checkGuardRow(c, rule, key, pos, comp, in, g, r)
@@ -1050,8 +1052,10 @@ func visitedGuardedImpl(f *ssa.Function, call ssa.Instruction, row *guardRow, mo
 		}
 		for _, cv := range conds {
 			for _, br := range branchesOn(cv.v) {
-				t := blockReaches(br.TrueSucc, call.Block(), nil)
-				fl := blockReaches(br.FalseSucc, call.Block(), nil)
+				// (within one round of an enclosing loop: a path that comes back to
+				// the test itself starts another round)
+				t := blockReaches(br.TrueSucc, call.Block(), br.If.Block())
+				fl := blockReaches(br.FalseSucc, call.Block(), br.If.Block())
 				if t != fl {
 					tested = true
 					if cv.presence {
@@ -1320,6 +1324,9 @@ func autoGuard(comp []*ssa.Function, in map[*ssa.Function]bool, g *repoGraph, re
 					if ok, w := visitedGuarded(gf, cl, row); !ok {
 						all = false
 						why = w
+						if os.Getenv("VERIF_DEBUG_REC") != "" {
+							fmt.Fprintf(os.Stderr, "REC-DEBUG   candidate %q in %s: %s\n", cand, fnName(gf), w)
+						}
 					}
 				}
 				if all {
